@@ -97,6 +97,8 @@ def oracle(c):
     grids = ev2.scaled(run.res, c)
     if grids[:H] != c["hist"]:
         return "given history not returned as a prefix"
+    if isinstance(run.res, np.ndarray) and np.shares_memory(run.res, run.ca):
+        return "the returned evolution shares memory with the array that was passed in (%d steps taken)" % (len(grids) - H)
     k = len(grids) - H
     this_call = [c["hist"][-1]] + grids[H:]
     want = [(this_call[:i], i) for i in range(1, k + 2)]
